@@ -61,19 +61,19 @@ func ruleCallGuards(c *Ctx) {
 			ID: "callInternal.permission", Fn: fnCI, Target: "call:" + symCX,
 			Assume: &Assume{Sym: map[string]bool{"pkg/smartcontract/manifest#Safe": false}, Conds: []AssumeCond{{Mentions: []string{"pkg/vm.(*VM).Context"}, Not: []string{"local<-pkg/vm.(*Context).GetManifest"}, Val: true}}},
 			Guards: []Guard{{ID: "can-call", Doc: "a deployed caller reaches a non-safe method only if its manifest permits the callee and the method", Whole: true,
-				Alts: [][]string{{"pkg/smartcontract/manifest.(*Manifest).CanCall", "pkg/core/state#Hash", "pkg/smartcontract/manifest#Name"}},
+				Alts:  [][]string{{"pkg/smartcontract/manifest.(*Manifest).CanCall", "pkg/core/state#Hash", "pkg/smartcontract/manifest#Name"}},
 				Extra: []string{"pkg/core/interop#VM", "pkg/core/interop.(*Context).GetContract", "pkg/core/state#Manifest", "pkg/vm.(*Context).GetManifest", "pkg/vm.(*VM).Context", "pkg/vm.(*VM).GetCurrentScriptHash"}}},
 		},
 		{
 			ID: "callExFromNative.load", Fn: fnCX, Target: "call:pkg/vm.(*VM).LoadNEFMethod",
 			Assume:   &Assume{Conds: []AssumeCond{{Mentions: []string{"pkg/core/interop#PolicyChecker"}, Not: []string{"pkg/core/interop.(PolicyChecker).IsBlocked", "pkg/core/interop.(PolicyChecker).WhitelistedFee"}, Val: true}}},
 			MustNode: [][]string{{"param#5", "op:&", symGetCallFlags}},
-			Guards: []Guard{{ID: "not-blocked", Doc: "a blocked contract is never loaded", Alts: [][]string{{"pkg/core/interop.(PolicyChecker).IsBlocked"}}}},
+			Guards:   []Guard{{ID: "not-blocked", Doc: "a blocked contract is never loaded", Alts: [][]string{{"pkg/core/interop.(PolicyChecker).IsBlocked"}}}},
 		},
 		{
 			ID: "runtime.LoadScript.load", Fn: [3]string{"pkg/core/interop/runtime", "", "LoadScript"}, Target: "call:pkg/vm.(*VM).LoadDynamicScript",
 			MustNode: [][]string{{"local<-pkg/vm.(*Stack).Pop", "op:&", symGetCallFlags, "pkg/smartcontract/callflag.ReadOnly"}},
-			Guards: []Guard{{ID: "script-correct", Doc: "a dynamic script passes the static script check before being loaded", Alts: [][]string{{"pkg/smartcontract/scparser.IsScriptCorrect"}}}},
+			Guards:   []Guard{{ID: "script-correct", Doc: "a dynamic script passes the static script check before being loaded", Alts: [][]string{{"pkg/smartcontract/scparser.IsScriptCorrect"}}}},
 		},
 	})
 	// "calling a method marked safe never modifies state whatever flags the caller passes" holds for *every* way into
